@@ -502,4 +502,36 @@ def Justified (pool : List Source) (c : Core) : Prop :=
 instance (pool : List Source) : Decidable (Coherent pool) := by unfold Coherent; infer_instance
 instance (pool : List Source) (c : Core) : Decidable (Justified pool c) := by unfold Justified; infer_instance
 
+/-! ### lock discipline of the state machine (facts about the traced programs, `Generated/ConsumerLocks.lean`)
+
+`step` treats `reloadEnd` (replay, clearing of the buffer, switch to `initialized`) as one atomic action and
+`finishBuffered` as the second half of the pre-check.  That is justified by two facts about the code, which the
+translator re-establishes from a dynamic trace on every run: in `reload_all` the write `_state = initialized` happens
+while `_buffered_notifications_lock` is held, and `_pre_check_report_ok` reads `_state` again inside its lock section
+before it appends to the buffer. -/
+
+inductive LockAct
+  | acq | rel            -- `_buffered_notifications_lock`
+  | readState
+  | writeState (m : Mode)
+  | append               -- `_buffered_notifications.append`
+deriving DecidableEq, Repr
+
+/-- every switch to `initialized` happens inside a buffer-lock section -/
+def switchInsideLock : Bool → List LockAct → Bool
+  | _, [] => true
+  | _, .acq :: r => switchInsideLock true r
+  | _, .rel :: r => switchInsideLock false r
+  | held, .writeState .initialized :: r => held && switchInsideLock held r
+  | held, _ :: r => switchInsideLock held r
+
+/-- every append to the buffer happens inside a lock section in which the state was read before -/
+def recheckBeforeAppend : Bool → Bool → List LockAct → Bool
+  | _, _, [] => true
+  | _, _, .acq :: r => recheckBeforeAppend true false r
+  | _, _, .rel :: r => recheckBeforeAppend false false r
+  | held, _, .readState :: r => recheckBeforeAppend held held r
+  | held, read, .append :: r => held && read && recheckBeforeAppend held read r
+  | held, read, _ :: r => recheckBeforeAppend held read r
+
 end Sdc.Consumer
